@@ -38,6 +38,14 @@ Case grammar (one line, id added by vcheck):
           | obj a|r | cfg a|r | it a|r  (the reference is given a value that IS an object / a configuration / an iterator and
             accepts / refuses what mpt_meta_set asks of it) | view a (a view of the process-wide configuration)
       observation: m:<ok|e>|<= same object, ! another one, + installed>|<kind>|<text the value shows>|u<releases seen>
+  N <n> <node>*n <op>...               mpt_node_locate / mpt_node_query on a sibling list the harness links itself and
+      installs as the top level of the process-wide configuration (every node holds its trail "v0.1" as value)
+      node = <id>[/<id>;<id>...] (children), id = n<hex|-> (name) | z<k> (nameless identifier of k zero bytes)
+             | p<charset>.<tag> (pointer identifier: length 0, _base = fixed address number tag, 0 = NULL)
+      op: loc <start|~> <pos> <key>   mpt_node_locate(node start | NULL, pos, key): i<index> | n | f (NULL + EFAULT)
+              key = d<hex> (name, charset -1) | c<charset>.<hex> (raw bytes, explicit charset) | p<charset>.<tag>
+                    (pointer key, length 0) | x<len> (NULL identifier with that length)
+          q <sephex> <strhex>         mpt_node_query(list, path) -> q:<trail>|<consumed>.<left>|<what mpt_config_getp(NULL, path, 's') reads>
   pathspec = <handle>:<sephex>:<str>[:<endhex>],  str = "~" (NULL) | "-" (empty string) | hex of the C string;
              endhex (kind G, operations a / r): the end character handed to mpt_config_set
 """
@@ -47,6 +55,7 @@ from vcheck import (DiffProperty, ASAN_ENV, VERIF, build_harness, build_model, r
 SEPS = [0x2e, 0x2f, 0x3a]
 ARITY = {"a": 2, "t": 3, "r": 1, "d": 1, "z": 1, "l": 1, "n": 1, "k": 1, "y": 1, "env": 3,
          "s": 1, "v": 1, "i": 0, "0": 0, "obj": 1, "cfg": 1, "it": 1, "view": 1,
+         "loc": 3, "q": 2,
          "set": 2, "sets": 4, "next": 0, "last": 0, "del": 0, "add": 1, "post": 1, "bin": 0, "clr": 0, "clrx": 0, "cp": 0, "asg": 0, "fork": 0}
 
 # Two defects of /repo found by driving mpt::path copies (docs/notes_C10.md, "open defects"); each constant
@@ -93,6 +102,7 @@ class C10(DiffProperty):
     pid = "C10"
     claimed = True
     coq_dir = "C10"
+    coq_deps = ("C16",)      # coq/C16/Locate.v: traversal proof of mpt_node_locate, reused by C10/LocateProofs.v
     extract_vo = "C10/Extract.vo"
     mlname = "c10_model"
     driver = "c10_driver.ml"
@@ -122,7 +132,12 @@ class C10(DiffProperty):
             "reference + a history of mpt_meta_set calls (text as string / vector of char, an integer, no value) and installations of a value "
             "that is an object / a configuration / an iterator (accepting or refusing) or a view of the process-wide configuration: after "
             "every call result class, whether the reference holds the same object, the text it shows and how often the harness-made value "
-            "was released. quick: every history of length <= 3 over 5 paths x {assign, remove} for G, R and J and of "
+            "was released; or (N) a sibling list linked by the harness that holds every kind of identifier (names - repeated, empty, "
+            "one a prefix of another, with an embedded NUL -, nameless identifiers of k zero bytes, pointer identifiers of several character "
+            "sets incl. the NULL pointer), each node with up to 4 children, installed as the top level of the process-wide configuration: "
+            "mpt_node_locate from every start node with positions -4..4 and keys of every form (name with the default character set, raw "
+            "bytes with an explicit one, pointer key, NULL with and without a length, NULL list), and mpt_node_query + mpt_config_getp for "
+            "paths over such lists (which node is found, how much of the path is left, what the store reads there). quick: every history of length <= 3 over 5 paths x {assign, remove} for G, R and J and of "
             "length <= 2 for H and X (exhaustive), every history of length <= 3 over 8 operations of one view and the global handle "
             "around it, every string of length <= 4 over {sep, assign, 'a'} through path_set (string and explicit lengths) with "
             "next/last, plus random histories of 4..14 operations over path sets with shared prefixes, prefix-of-another paths, repeated "
@@ -131,10 +146,15 @@ class C10(DiffProperty):
             "histories over value lengths 0,1,5,248..251,254..256,300,1000, 128k-64 +-1 up to 65600 and 65534..65536 (string / vector / "
             "array; assign, no value, overwrite, refused integer, through a view) and element names of 65534 / 65535 / 65536 bytes; every "
             "history of length <= 3 over 13 mpt_meta_set operations (kind M) + 300 random ones; random path build/walk histories in separator and binary mode with element lengths "
-            "0,1,127,128,254..257. A case is non-trivial when it has a removal, a long element/value, an empty element, a view, one of "
+            "0,1,127,128,254..257 (now also: last / del behind consumed elements with post data, add 0 on a path that lies in the "
+            "caller's string, invalidate / last / del / add on a path without storage); one 15-node list x every start x positions -4..4 x 22 keys "
+            "(exhaustive) + 400 random lists (kind N). A case is non-trivial when it has a removal, a long element/value, an empty element, a view, one of "
             "the caller-level operations or a path operation beyond set; distinct = distinct case text")
     modelled = ("mptcore/config/{path_set,path_next,path_last,path_add,path_del,node_query,node_assign,config_global,config_set,config_get,"
-                "config_item_query,config_item_reserve}.c, node/node_locate.c (forward search by name), meta/meta_set.c + meta_new.c (text values, "
+                "config_item_query,config_item_reserve}.c, node/node_locate.c (all three traversals - forwards, backwards, last match - and the "
+                "whole comparison: character set, pointer identifiers, stored length with / without terminator, bytes; coq/C10/LocateModel.v "
+                "node_locate over identifiers (charset, bytes | pointer), lquery_loop = the loop of node_query.c calling it; the tree model of "
+                "the store keeps its inlined first-match search, proved equal: C10_store_lookup_is_node_locate, C10_node_query_is_locate_loop), meta/meta_set.c + meta_new.c (text values, "
                 "the 8-bit size limit of the basic metatype) and mpt++/config.cpp (config::root assign / remove / query incl. the NULL forms, "
                 "config::set / get / del, path::clear_data, path copies) transcribed in coq/C10/ConfigModel.v; the caller-level entry points "
                 "(mpt_config_set with end character, mpt_config_getp / mpt_config_get with the requested conversion - type 0, 's', vector "
@@ -177,7 +197,17 @@ class C10(DiffProperty):
                "a path); text is read from library-made values through their conversions, from harness-made ones from their own store",
                "asked for the value itself (TypeConvertablePtr) the harnesses compare the pointer handed out with the one the query "
                "handler received and read the text from that object"]
-    level_text = ("proof: Coq theorems (coq/C10/Properties.v, 35, all closed under the global context) "
+    level_text = ("proof: Coq theorems (coq/C10/Properties.v, 43, all closed under the global context) "
+                  "C10_path_last_element / C10_path_del_element (separator mode, ANY well-formed path - any offset, with or without array "
+                  "and post data: mpt_path_last leaves exactly the last element, read from inside the storage, end of the path unmoved; "
+                  "mpt_path_del removes exactly the last element and the post data and returns its length), "
+                  "C10_locate_kth_match / C10_locate_finds_matching_node (mpt_node_locate on ANY sibling list - names, nameless and pointer "
+                  "identifiers, any character sets -, any start node, any key: the k-th matching node forwards from the start, backwards "
+                  "before it, or the last match of the list; through the traversal proof of coq/C16/Locate.v), "
+                  "C10_locate_default_key_is_name_equality / C10_locate_skips_other_charsets (the key mpt_node_query uses is equality of "
+                  "the name bytes, identifiers of other kinds never match), C10_store_lookup_is_node_locate / C10_node_query_is_locate_loop "
+                  "(the first-match search of the store model IS mpt_node_locate(list, 1, name, len, -1) and the loop of node_query.c around "
+                  "it IS the model's mpt_node_query, so every store theorem below speaks about the transcribed node_locate.c); "
                   "C10_path_elements / C10_path_elements_string / C10_string_key / C10_string_key_end / C10_del_key / C10_path_next_element "
                   "(mpt_path_set over ANY byte string or C string, any separator, any assign / end character, any explicit length, any element "
                   "lengths, yields a well-formed path and repeated mpt_path_next visits exactly the separator-delimited components up to the "
@@ -243,12 +273,22 @@ class C10(DiffProperty):
                   "Specification detail: which conversions a stored text offers is part of get_view - text of 250 bytes and more in the C store "
                   "is not available as 's' (mpt_config_get(.., 's', ..) reports BadType; vector of char works; Example C10_long_value_views). "
                   "NOT proved, only cross-checked against the abstract "
-                  "path specification astep by the correspondence run: mpt_path_last and mpt_path_del (both modes), path_add on paths with "
+                  "path specification astep by the correspondence run: mpt_path_last and mpt_path_del in BINARY mode (separator mode: proved, "
+                  "C10_path_last_element / C10_path_del_element), path_add on paths with "
                   "an offset, binary-mode histories that mix add with next / del (the binary build-then-walk is proved: "
                   "C10_path_rebuild_binary). Compared with the specification only (no model of the mechanism): that "
                   "copies of an mpt::path sharing one array do not disturb each other (the model has values, not references), "
                   "config::environ (expanded by the driver), the metatype facts of a handle, the path-less forms of config::root, "
-                  "config::pointer_traits / type_properties<config *>. Observation (not C10's subject, not driven): "
+                  "config::pointer_traits / type_properties<config *>. mpt_node_query over lists with foreign identifiers (kind N, q) is compared with the "
+                  "specification squery_l (first node that carries exactly that name, at every level) by the correspondence run; proved only "
+                  "for forests of names (C10_node_query_is_locate_loop + the store theorems). Coverage of the files brought in by round 6 "
+                  "(own quick tier, gcov): node/node_locate.c 100 % of 52 lines (was 36.5 %), path_add.c 100 % of 43 (the branch without "
+                  "array: add 0 on a path in the caller's string), path_last.c 95 % (line 29) and path_del.c 96 % (lines 32, 57): the three "
+                  "lines left are the consistency checks of the binary layout / array length, reachable only with a path whose flags or "
+                  "array were changed behind the library's back. Finding, not patched (docs/notes_C10.md, round 6): mpt_path_add on a path "
+                  "WITHOUT array (set from a string) copies the path into a new array but does not set HasArray - the array is never "
+                  "released and a second add takes the next element from uninitialised bytes of that array; no caller in the library uses "
+                  "that branch with add > 0, the generator uses add 0 only. Observation (not C10's subject, not driven): "
                   "config::get(path, metatype *&) fails on a config::root value of 255+ bytes - io::buffer::metatype::convert names its "
                   "own class where ::mpt::metatype is meant (injected class name), so TypeMetaPtr is not answered. Not driven: "
                   "type_properties<config_item>::id / traits of mpt++/config.cpp (declared inline in config.h, defined out of line and never "
@@ -289,6 +329,8 @@ class C10(DiffProperty):
 
     def project(self, tok):
         f = tok.split("|")
+        if f[0].startswith("q:"):    # mpt_node_query on a hand-linked list: the element found and what the store reads there
+            return f[0] + "|" + f[2] if len(f) == 3 else tok
         if f[0].startswith("m:"):    # mpt_meta_set on one reference: result class and the text the value shows
             return f[0] + "|" + f[3] if len(f) == 5 else tok
         if len(f) == 5:          # path case: result (any error code = refused) and the element walk
@@ -315,6 +357,8 @@ class C10(DiffProperty):
             return t[:1], []
         if t[0] == "M":
             hdr, rest = t[:1], t[1:]
+        elif t[0] == "N":
+            hdr, rest = t[:2 + int(t[1])], t[2 + int(t[1]):]
         elif t[0] in ("P", "Q"):
             hdr, rest = t[:3], t[3:]
         else:
@@ -336,7 +380,14 @@ class C10(DiffProperty):
             yield self.join(hdr, ops[:k] + ops[k + 1:])
         for k in range(1, len(ops)):
             yield self.join(hdr, ops[:k])
-        if hdr[0] not in ("P", "Q", "T", "M"):
+        if hdr[0] == "N":
+            # drop one node (start indices that no longer exist make the candidate invalid: skipped by the bound)
+            n = int(hdr[1])
+            for k in range(n):
+                nodes = hdr[2:2 + k] + hdr[3 + k:]
+                if all(o[0] != "loc" or o[1] == "~" or int(o[1]) < n - 1 for o in ops) and n > 1:
+                    yield self.join(["N", str(n - 1)] + nodes, ops)
+        if hdr[0] not in ("P", "Q", "T", "M", "N"):
             nv = int(hdr[1])
             no = int(hdr[2 + nv])
             obs = hdr[3 + nv:]
@@ -359,6 +410,24 @@ class C10(DiffProperty):
         if hdr[0][1:] == "c":
             cl.add("value-as-convertable")
         if hdr[0] == "T":
+            return cl
+        if hdr[0] == "N":
+            kinds = set(x[0] for h in hdr[2:] for x in h.replace("/", ";").split(";") if x)
+            for o in ops:
+                if o[0] == "loc":
+                    p = int(o[2])
+                    cl.add("locate:" + ("forward" if p > 0 else "backward" if p < 0 else "last"))
+                    cl.add("key:" + o[3][0])
+                    if abs(p) > 1:
+                        cl.add("locate:k-th")
+                    if o[1] == "~" or o[3][0] == "x":
+                        cl.add("locate:refused")
+                else:
+                    cl.add("query-on-linked-list")
+            if len(set(h.split("/")[0] for h in hdr[2:])) < len(hdr[2:]):
+                cl.add("repeated-names")
+            if kinds - {"n"}:
+                cl.add("foreign-identifiers")
             return cl
         if hdr[0] == "M":
             for o in ops:
@@ -692,6 +761,92 @@ class C10(DiffProperty):
                 ops += rng.choice(self.metaset_ops()[6:])
         return " ".join(["M"] + ops)
 
+    # ------------------------------------------------------------------ kind N: mpt_node_locate / mpt_node_query
+    LOC_IDS = ["n61", "n62", "n61", "n6162", "n-", "n61", "z0", "z2", "z3", "p1.1", "p4.1", "p4.2", "p4.0", "n6100", "n62"]
+
+    def loc_keys(self):
+        return ["d61", "d62", "d6162", "d-", "d6100", "d63", "c1.6100", "c1.61", "c1.00", "c0.-", "c0.0000", "c0.000000", "c1.-",
+                "c4.-", "p4.1", "p4.2", "p4.0", "p1.1", "p1.0", "c2.6100", "x0", "x1"]
+
+    def exhaustive_locate(self):
+        """one list that holds every kind of identifier (names - repeated, one a prefix of another, empty, with an
+        embedded NUL -, nameless identifiers of 0 / 2 / 3 zero bytes, pointer identifiers of two character sets and
+        the NULL pointer): EVERY start node x EVERY position -4..4 x every key form (name with the default character
+        set, raw bytes with an explicit one - with and without the terminator -, pointer keys, NULL with and without
+        a length), and the NULL list"""
+        ids = self.LOC_IDS
+        out = []
+        hdr = ["N", str(len(ids))] + ids
+        for key in self.loc_keys():
+            ops = []
+            for start in range(len(ids)):
+                for pos in range(-4, 5):
+                    ops += ["loc", str(start), str(pos), key]
+            ops += ["loc", "~", "1", key, "loc", "~", "0", key, "loc", "~", "-1", key]
+            out.append(" ".join(hdr + ops))
+        # short lists: one node, two nodes
+        for ids in (["n61"], ["z0"], ["p4.1"], ["n61", "n61"], ["n62", "n61"], ["n61", "z0"], ["p4.1", "p4.1"], ["z2", "n61"]):
+            ops = []
+            for key in ("d61", "c0.-", "p4.1", "c1.6100", "c0.0000", "x1"):
+                for start in range(len(ids)):
+                    for pos in range(-2, 3):
+                        ops += ["loc", str(start), str(pos), key]
+            out.append(" ".join(["N", str(len(ids))] + ids + ops))
+        # the lookup of the store on lists with repeated names and foreign identifiers between the names
+        forests = [["n61/n62;n62;n63", "n61/n63;n64", "n62/n61", "z0/n61", "n-/n-;n61", "n61"],
+                   ["z0", "p4.1/n62", "n61/z2;n62;p1.1;n62", "n61/n62", "n6162/n61;n61"],
+                   ["n62", "z3", "n62/n61;z0;n61", "n-", "n-/n61"]]
+        qs = [b"a", b"b", b"a.b", b"a.c", b"a.d", b"b.a", b"a.b.c", b"", b".", b".a", b"a.", b"ab", b"ab.a", b"c", b"a..b", b"..a", b"b.b"]
+        for f in forests:
+            ops = []
+            for q in qs:
+                ops += ["q", "2e", hx(q)]
+            ops += ["q", "2f", hx(b"a/b"), "q", "2f", hx(b"a.b"), "q", "2e", "~"]
+            out.append(" ".join(["N", str(len(f))] + f + ops))
+        return out
+
+    def gen_locate(self, rng):
+        names = ["n61", "n62", "n61", "n6162", "n-", "n" + "78" * rng.choice([3, 4, 5, 27, 28, 29, 250, 300]), "n6100", "n00"]
+        other = ["z0", "z1", "z4", "z5", "p4.1", "p4.2", "p1.1", "p4.0"]
+        n = rng.choice([1, 2, 3, 5, 8, 12])
+        ids = [rng.choice(names if rng.random() < 0.7 else other) for _ in range(n)]
+        nodes = []
+        for i in ids:
+            if rng.random() < 0.4:
+                i += "/" + ";".join(rng.choice(names[:5] if rng.random() < 0.8 else other) for _ in range(rng.choice([1, 2, 4])))
+            nodes.append(i)
+        ops = []
+        for _ in range(rng.choice([4, 8, 16])):
+            if rng.random() < 0.7:
+                r = rng.random()
+                if r < 0.5:
+                    key = "d" + (rng.choice([i for i in ids + names if i[0] == "n"])[1:] if rng.random() < 0.85 else "63")
+                elif r < 0.75:
+                    i = rng.choice(ids)
+                    if i[0] == "n":
+                        key = "c1." + (i[1:] if i[1:] != "-" else "") + ("00" if rng.random() < 0.8 else "")
+                        if key == "c1.":
+                            key = "c1.-"
+                    elif i[0] == "z":
+                        k = int(i[1:]) + rng.choice([0, 0, 0, 1])
+                        key = "c0." + ("00" * k if k else "-")
+                    else:
+                        key = i
+                elif r < 0.9:
+                    key = rng.choice(["p4.1", "p4.2", "p4.0", "p1.1", "c4.-", "c1.-", "c0.-"])
+                else:
+                    key = rng.choice(["x0", "x1", "x3"])
+                start = "~" if rng.random() < 0.04 else str(rng.randrange(n))
+                ops += ["loc", start, str(rng.choice([1, 1, 1, 0, -1, 2, -2, 3, -3, 7])), key]
+            else:
+                el = [bytes.fromhex(i.split("/")[0][1:]) if i[0] == "n" and i.split("/")[0][1:] != "-" else b"" for i in nodes if i[0] == "n"] or [b"a"]
+                k = [rng.choice(el + [b"a", b"b", b""]) for _ in range(rng.choice([1, 2, 2, 3]))]
+                s = b".".join(k)
+                if b"\0" in s:
+                    s = b"a.b"
+                ops += ["q", "2e", hx(s)]
+        return " ".join(["N", str(n)] + nodes + ops)
+
     def exhaustive_store(self, kind, depth):
         paths = [b"a", b"b", b"a.a", b"a.b", b""]
         obs = [spec(0, 0x2e, p) for p in paths] + [spec(0, 0x2e, b"a.a.a")]
@@ -738,6 +893,22 @@ class C10(DiffProperty):
                     for k in range(0, n + 1):
                         out.append("P 2e %s set %s %d next next set %s %d last" % (asg, h, k, h, k))
         out.append("P 2e 00 set ~ 0 next last del")
+        # mpt_path_invalidate / last / del / add on a path without storage; add on a path in the caller's string
+        out += ["P 2e 00 clr last del add 0", "P 2e 00 set ~ 0 clr add 0 add 1",
+                "P 2e 00 set 612e62 -1 add 0 add 0 next next next next del del del",
+                "P 2e 3d set 612e623d76616c -1 add 0 last", "P 2e 00 set 612e62 -1 next add 0 last del",
+                "P 2e 00 set 612e62 3 add 0 next del last", "Q 2e 00 set 612e62 -1 add 0 cp add 0 del last"]
+        # last / del behind consumed elements (offset), with post data, both modes
+        for pre in ("", "bin "):
+            out += ["P 2e 00 %spost 616263 add 3 post 6465 add 2 next last del" % pre,
+                    "P 2e 00 %spost 616263 add 3 post 6465 add 2 next post 66 add 1 last" % pre,
+                    "P 2e 00 %spost 616263 add 3 post 6465 add 2 next next post 66 add 1 next last del" % pre,
+                    "P 2e 00 %spost 616263 add 3 post 6465 add 2 next del del add 0" % pre,
+                    "P 2e 00 %spost 61 add 1 post 0500 add 0 del last" % pre,
+                    "P 2e 00 %spost 6162 add 2 clr next clr post 63 clr clr" % pre,      # invalidate with nothing behind the path
+                    "Q 2e 00 %spost 6162 add 2 clr next clr post 63 clr clr" % pre,
+                    "P 2e 00 %spost 616263 add 3 post 64657a7a add 2 last del next" % pre,
+                    "P 2e 00 %spost 616263 add 3 post 64657a7a add 2 next del post 71 add 1 last" % pre]
         return out
 
     def gen_pathcase(self, rng):
@@ -767,6 +938,11 @@ class C10(DiffProperty):
             if form[0] == "sets":
                 ops += [rng.choice(["~", "%02x" % sep, "%02x" % rng.choice(SEPS)]), rng.choice(["~", "00", "3d", "%02x" % asg])]
             for _ in range(rng.choice([1, 2, 4, 6])):
+                # "add 0" on a path that lies in the caller's string: the branch of mpt_path_add without array
+                # (path_add.c: pre = len + add; the path is copied into a new array, an empty element appended)
+                if rng.random() < 0.15:
+                    ops += ["add", "0"]
+                    continue
                 ops += [rng.choice(["next", "next", "last", "del", "cp", "asg", "clr"] + (["fork"] if PATCHED_PATH_ADD_SHARED else []))]
         else:
             if rng.random() < 0.4:
@@ -838,6 +1014,9 @@ class C10(DiffProperty):
         cases += self.gen_unsetcases()
         cases += self.gen_namecases()
         cases += self.exhaustive_metaset(depth)
+        cases += self.exhaustive_locate()
+        for i in range(400 if tier == "quick" else 8000):
+            cases.append(self.gen_locate(rng))
         for i in range(300 if tier == "quick" else 6000):
             cases.append(self.gen_metaset(rng))
         return [self.conv_form(self.clear_form(c)) for c in cases]
